@@ -105,14 +105,18 @@ oct_literal = re.compile(r'0o(?:[0-7]_?)*[0-7]')
 bin_literal = re.compile(r'0b(?:[01]_?)*[01]')
 dec_literal = re.compile(r'(?:\d_?)*\d')
 def read_int_token(scan):
-    if lit := scan.match(hex_literal):
-        return tokens.IntToken(int(lit, 16))
-    elif lit := scan.match(oct_literal):
-        return tokens.IntToken(int(lit, 8))
-    elif lit := scan.match(bin_literal):
-        return tokens.IntToken(int(lit, 2))
-    elif lit := scan.match(dec_literal):
-        return tokens.IntToken(int(lit, 10))
+    try:
+        if lit := scan.match(hex_literal):
+            return tokens.IntToken(int(lit, 16))
+        elif lit := scan.match(oct_literal):
+            return tokens.IntToken(int(lit, 8))
+        elif lit := scan.match(bin_literal):
+            return tokens.IntToken(int(lit, 2))
+        elif lit := scan.match(dec_literal):
+            return tokens.IntToken(int(lit, 10))
+    except ValueError:
+        # CPython refuses to convert very long digit strings
+        raise LexerError('Integer literal too large', scan.cursor)
 
 ident_pattern = re.compile(r'[a-zA-Z_]\w*')
 keyword_tokens = {
